@@ -296,7 +296,12 @@ class VNCDoToolClient(rfb.RFBClient):
         self: TClient, data: object, fp: TFile, *args: int, format: str | None = None
     ) -> TClient:
         log.debug("captureSave %s", fp)
-        assert self.screen is not None
+        if self.screen is None:
+            # the update that just completed carried no pixel data (only a
+            # cursor shape, say): there is nothing to save yet, keep waiting
+            d = self.refreshScreen()
+            d.addCallback(self._captureSave, fp, *args, format=format)
+            return d
         if args:
             capture = self.screen.crop(args)  # type: ignore[arg-type]
         else:
